@@ -650,3 +650,10 @@ func StepNo() int {
 	}
 	return S.Steps
 }
+
+// SetDaemon marks the calling thread as a harness service thread (ignored by Live / deadlock reports).
+func SetDaemon() {
+	if S != nil && S.cur != nil {
+		S.cur.Daemon = true
+	}
+}
